@@ -495,12 +495,14 @@ pub struct LiveMon {
     attr: Attr,
     /// (peer index, expected content) of the probes
     pub probes_spec: Vec<(usize, Arc<Vec<u8>>)>,
+    /// a legitimate upload that runs while the hostile datagrams arrive: (stored path, content)
+    pub upload_victim: Option<(PathBuf, Arc<Vec<u8>>)>,
     pub probes: BTreeMap<&'static str, u64>,
 }
 
 impl LiveMon {
     pub fn new(probes_spec: Vec<(usize, Arc<Vec<u8>>)>) -> LiveMon {
-        LiveMon { attr: Attr::default(), probes_spec, probes: BTreeMap::new() }
+        LiveMon { attr: Attr::default(), probes_spec, upload_victim: None, probes: BTreeMap::new() }
     }
 }
 
@@ -529,6 +531,21 @@ impl Monitor for LiveMon {
     fn at_end(&mut self, w: &Inner, end: EndReason) -> Option<Violation> {
         if end == EndReason::StepCap {
             return Some(Violation::new("C05", "C05.spinning", "the run hit the step cap: some task spins without blocking".to_string()));
+        }
+        if let Some((path, content)) = &self.upload_victim {
+            // hostile datagrams from other endpoints must not damage a transfer in flight. A hostile WRQ
+            // may legitimately have claimed the same name first only if it used the same name: it does not.
+            match std::fs::read(path) {
+                Ok(f) if f == **content => {
+                    *self.probes.entry("concurrent_upload_intact").or_insert(0) += 1;
+                }
+                other => {
+                    return Some(
+                        Violation::new("C05", "C05.concurrent_upload_damaged", format!("a legitimate upload that ran while hostile datagrams arrived was stored as {:?} bytes instead of {}", other.ok().map(|f| f.len()), content.len()))
+                            .sig("probe", "upload"),
+                    );
+                }
+            }
         }
         for (p, content) in &self.probes_spec {
             if let Some(rd) = w.peer::<Reader>(*p) {
